@@ -33,6 +33,9 @@ ENGINES["alloc"] = {"path": "harness/src/alloc.rs",
 ENGINES["feat"] = {"path": "harness/src/feat.rs + featrun/ (public API only, built once per feature subset)",
     "kind": "all 8 subsets of {std, macho, pe}: cargo build --no-default-features --features <subset> of a crate using framehop's public API (a build failure is a violation; replay = feature set + compiler output); one battery of DWARF / frame-pointer histories as raw section bytes (both architectures, both policies, same-address repeats with failing then sane thread states, removals, iterator walks, max_known_code_address) executed by all 8 binaries and in-process by the default build - all answers incl. cache statistics must be identical; and, built with the verification cfg, the unwind-data variant Module::new selects for all 128 offers of sections x 8 subsets vs the Lean model selectUnwindData"}
 
+ENGINES["asm"] = {"path": "harness/src/asm.rs",
+    "kind": "generator check by an independent decoder: every distinct (instruction bytes, assumed effect on sp/fp/lr) pair that the program synthesizers (prog.rs for DWARF / Mach-O scenarios on both architectures, pe.rs for PE) emit is disassembled with LLVM's llvm-mc (x86-64; AArch64 with pointer authentication) and the printed instruction must be the one the ground-truth simulator assumes (register, immediate, addressing mode); skipped with a note if llvm-mc is absent"}
+
 NOT_APPLICABLE = {}
 
 _NOTE = ("Trusted: Lean kernel; axioms propext/Classical.choice/Quot.sound only (audited per theorem on every run); "
@@ -121,14 +124,14 @@ PROPS = {
     },
     "C01": {
         "lean": ["FH.Props.C01"],
-        "engines": ["scn", "row", "hist"],
+        "engines": ["scn", "row", "hist", "asm"],
         "level_text": "Theorems: unwind_frame on a fresh cache is stepRow of the row the module's CFI resolves to; stepRow performs exactly the DWARF step of the row on a real stack (both architectures, via the C05 theorems for the compressed and the generic path); a walk over any true call chain (unbounded depth) yields exactly its return addresses with the caller's registers after each step and ends with Ok(None) at the root (C01_x64_walk, induction over the chain); the cache state is irrelevant (C06). Tie: synthesized programs with simulator ground truth, every instruction boundary, three presentations, both policies; each generated step is first confirmed by the Lean driver's dwarfSpec (generator check), then the implementation is judged against it.",
         "level_note": _NOTE + " The aarch64 walk is covered by the per-step theorem C01_a64_exact_step (the chain induction is written out for x86-64). Known findings: F14 (aarch64 first frame, undefined RA) and F21 (aarch64: a frame-pointer-rule step whose restored fp is null ends the walk without reporting the caller, e.g. a root running with fp = 0).",
         "statement": "Exact chain => exact walk, for all chains, rows of the domain, registers and stack contents.",
     },
     "C04": {
         "lean": ["FH.Props.C04"],
-        "engines": ["scn", "hist", "rule"],
+        "engines": ["scn", "hist", "rule", "asm"],
         "level_text": "Theorems: the decision table (no module / no or unusable unwind data / failed table lookup => fallback rule; address covered by no FDE => the architecture's uncovered rule = leaf in the first frame, frame pointer step otherwise), the fallback rule equals the platform frame-pointer convention under framehop's sanity checks (both architectures), null frame pointer or null return address completes with Ok(None), and a walk over any well-formed frame-record chain (any length, spacing, alignment) yields exactly the records' return addresses and ends with Ok(None) (induction over the chain). Tie: scn with unwind info removed in five ways + hist.",
         "level_note": _NOTE + " PE (.pdata) and compact-unwind reasons are added with those formats' models.",
         "statement": "Fallback/leaf decision table and frame-pointer chain walk.",
@@ -149,7 +152,7 @@ PROPS = {
     },
     "C02": {
         "lean": ["FH.Props.C02"],
-        "engines": ["macho", "ana"],
+        "engines": ["macho", "ana", "asm"],
         "level_text": "Theorems (x86-64, for every choice and order of registers, legacy and REX encodings): stopped anywhere in `pop...; ret` the analysed rule restores exactly the rsp/rbp/return address the CPU will have (machine model runPops); stopped after any prefix of the prologue's pushes the rule finds the return address above them; after `push rbp; mov rbp, rsp; push...` it is the frame pointer rule; frameless opcodes give rules that execute the documented layout (rbp slot by position); dispatch: __stubs/__stub_helper precedence and first-frame-only, function starts are leaves, function bytes are exactly the function's slice of the text; __stub_helper tables equal the documented dyld_stub_binder layout on both architectures; arm64 body rules. arm64 prologue/epilogue word scans: partial - modelled (FH/AnaA64.lean) and tied by correspondence and ground truth, not proved sound against a machine model. Tie: ana (hooks, byte for byte) and macho (whole modules, ground-truth walks).",
         "level_note": _NOTE + " macho-unwind-info's parser (UnwindInfo::lookup, opcode field extraction) is outside the model; the model takes the parsed opcode, recomputed by the harness with the real parser, and the writer exercises regular and compressed pages.",
         "statement": "Mach-O compact unwind: x86-64 prologue/epilogue analysis sound for all push/pop sequences; body rules exact; dispatch order; stub tables; arm64 partial (bodies and stubs proved, word scans by correspondence).",
@@ -177,7 +180,7 @@ PROPS = {
     },
     "C03": {
         "lean": ["FH.Props.C03"],
-        "engines": ["pe"],
+        "engines": ["pe", "asm"],
         "level_text": "Theorems: an address without a function table entry is a frameless leaf; PE on aarch64 falls back; the cacheable rule OffsetSpAndPopRegisters performs exactly the documented procedure for push/alloc prologs (popSpec over unbounded naturals) and so does the operation interpreter on the same prolog - compression is lossless (given the register-order round trip, which is kernel-checked only up to length 2 here and exhaustively tested on the implementation for all 109 601 orderings); interpreted steps are all-or-nothing, advance rsp in caller frames and set ip; framehop's own epilog simulation never panics. Tie: pe engine - ground-truth walks at every instruction boundary of synthesized PE programs, per-step comparison with the Lean model (plan + interpreter incl. pe-unwind-info's resolve_operation) and with pe-unwind-info's reference implementation of the Microsoft unwind procedure on arbitrary registers and stacks.",
         "level_note": _NOTE + " pe-unwind-info's parsers (function table lookup, UNWIND_INFO parsing, unwind code iteration, epilog instruction parsing) are outside the model; the model takes their output, recomputed by the harness with the real parsers. Known finding F8-dep (C09): unchecked arithmetic inside pe-unwind-info's resolve_operation.",
         "statement": "PE x64: leaf rule without table entry; pop-rule compression lossless; interpreter and rule equal the documented procedure; progress and atomicity of interpreted steps.",
